@@ -7,9 +7,11 @@ PROP = dict(
     rule="primitives EXHAUSTIVELY over the widths: UintN and IntN for every N in 1..64 and 128/256/257 at "
          "0/1/max/top-bit/min/-1 plus random values, VarUInteger n for every n in 1..32 at every byte length "
          "0..n-1 (minimal and all-ones), all BitsN, Unary, Grams incl. values >= 2^63; the structures with a "
-         "transcribed schema (Grams, CurrencyCollection, MsgAddress, CommonMsgInfo, TickTock, StateInit, Message, "
-         "wallet v3/v4 bodies, SignedMsgBody) on random in-domain values (all constructors, optionals "
-         "present/absent, Either left/right); the envelope of ton.CreateExternalMessage for random address / body "
+         "transcribed schema (38: Grams, CurrencyCollection with non-empty extra-currency dictionaries, MsgAddress, "
+         "CommonMsgInfo, TickTock, StateInit with libraries, Message, wallet v3/v4 bodies, SignedMsgBody, the 20 "
+         "account / transaction declarations from StorageUsed to Transaction, OutList, W5ExtendedAction(s), wallet "
+         "v5r1 bodies, highload v2 body) on random in-domain values (all constructors, optionals "
+         "present/absent, Either left/right, enumerations cycling); the envelope of ton.CreateExternalMessage for random address / body "
          "/ optional StateInit / fee; every transaction, message and state-init of the real blocks in "
          "tlb/testdata and ton/testdata re-encoded and hash-compared. non-trivial = distinct (structure, value) "
          "pair; real records by source cell",
@@ -23,23 +25,31 @@ PROP = dict(
         "spec ops tlb.spec / tlb.extmsg compare the cell produced by the REAL tlb.Marshal with specChunk directly "
         "(not with the model of the implementation); struct values reach the spec BY FIELD NAME (byName picks "
         "them by the schema's field names), so exchanging two same-typed Go fields yields a failing input",
-        "the alias table Agree/BlockTlb.nameAliases (seqno~msg_seqno, rawmessages~messages, sign~signature, "
-        "message~body)",
+        "the alias table BlockTlb.nameAliases (seqno~msg_seqno, rawmessages~messages/payload, sign~signature, "
+        "message~body, extendedactions~extended, boundedqueryid~query_id, and the three anonymous schema fields "
+        "StateInit / Vm / Msgs)",
+        "sources of the wallet schemas: abi/schemas/wallets.xml of the repository (v5r1 signed / extension "
+        "bodies, highload v2) and the contract's action list; wallet v5 BETA has no schema text in reach and is "
+        "not transcribed",
     ],
     assumptions=[
         "ideal bit-list level (C06 owns the refinement of boc.BitString); minBitsRequired's de Bruijn table is "
         "tied to bitWidth only through the exhaustive VarUInteger/Anycast lines, its proof is C06's",
-        "dictionaries: only the empty HashmapE is in scope here (C05 owns labels; the 9 real transactions whose "
-        "out_msgs dictionary uses the hml_same label re-encode to another hash on the unrepaired Hashmap encoder "
-        "— counted as non-canonical, reported to C05, repaired there)",
-        "wallet v5 / highload bodies have no transcribed schema yet (W5Actions, PayloadHighload)",
+        "dictionaries: `HashmapE n X` of the schema is hme_empty$0 / hme_root$1 + C05's tree (Hashmap.marshal) over "
+        "the keys and values AS THE SCHEMA SERIALISES THEM; that marshal writes a valid hm_edge / hmn_leaf / "
+        "hmn_fork tree with the shortest labels is C05's encode_sorted_tree / labels_shortest, not re-proved here",
+        "highload v2: the conversion of the message list into the dictionary (key i, value mode:uint8 ^message) is "
+        "shared between the spec node and the model (hlToDict)",
     ],
     partial=[
-        "impl_eq_spec_<S> exists for: TickTock, ExtraCurrencyCollection, CurrencyCollection, Grams, MsgAddress "
-        "(descriptor and hand-written codec), CommonMsgInfo (3 constructors), StateInit, Message, wallet v3 and "
-        "v4 bodies, SignedMsgBody. Structures outside this list (Transaction, Account, HASH_UPDATE, HmLabel / "
-        "Hashmap, wallet v5 / highload) are covered by C03's round trip and by the real-data re-encode oracle "
-        "only: a symmetric mistake there is visible only through real data",
+        "impl_eq_spec_<S> exists for 38 structures: TickTock, ExtraCurrencyCollection, CurrencyCollection, Grams, "
+        "MsgAddress (descriptor and hand-written codec), CommonMsgInfo, StateInit, Message, wallet v3 / v4 bodies, "
+        "SignedMsgBody; StorageUsed, StorageExtraInfo, StorageInfo, AccountState, AccountStorage, ExistedAccount, "
+        "Account, ShardAccount, AccountStatus, AccStatusChange, ComputeSkipReason, TrStoragePhase, TrCreditPhase, "
+        "TrComputePhase, TrActionPhase, TrBouncePhase, SplitMergeInfo, TransactionDescr (7 constructors), BurningConfig, MsgMetadata, "
+        "HASH_UPDATE, Transaction; OutList, W5ExtendedAction, wallet v5r1 bodies, highload v2 body; HashmapE "
+        "generically (impl_eq_spec_hashmapE). Outside: block-level structures (BlockInfo, ValueFlow, ShardState, "
+        "…: decode models only), wallet v5 beta, config parameters, abi message bodies",
         "reencode_real is proved for cells produced by the encoder; for chain cells it is checked (go.redec on "
         "every real transaction and message), not proved (see C03 ReencodeHash)",
         "the transcription of block.tlb is trusted",
@@ -51,10 +61,11 @@ PROP = dict(
                "transcribed schema (field order BY NAME: the Go field at each position must carry the schema's "
                "field name modulo snake/Camel case and a 4-entry alias table; widths; tags; references), the "
                "encoder appends exactly the chunk the schema prescribes, for every "
-               "in-domain value (induction on descriptors, 13 hand-written codecs included); impl_eq_spec_<S> is "
-               "decided by the kernel for 11 structures on the descriptors regenerated from the Go source on "
+               "in-domain value (induction on descriptors; 17 hand-written codecs, dictionaries, reference chains "
+               "and the highload payload included); impl_eq_spec_<S> is "
+               "decided by the kernel for 38 structures on the descriptors regenerated from the Go source on "
                "every run (a swapped field / wrong width / wrong tag breaks it); ext_message_layout for "
-               "ton.CreateExternalMessage. Tie: ~5 000 lines per quick run where the cell of the real "
+               "ton.CreateExternalMessage. Tie: ~11 000 lines per quick run where the cell of the real "
                "tlb.Marshal must equal the spec encoder's (exhaustive over primitive widths and VarUInteger "
                "lengths), plus model=code lines and the re-encoding of every real transaction/message with the "
                "non-canonical ones listed.",
